@@ -182,6 +182,34 @@ CHECKS["C05"] = dict(
     technique="Lean 4 proofs over Go->Lean regenerated validation tables + C01's operation-level model (no fault under the guards) + exhaustive hostile-line enumeration through the real parser and real sessions with crash detection",
     design="5/C05", engine="proxy")
 
+LIFE_TIE = ("A real Scheduler over a real Proxy runs between a fake miner and fake pools under virtual time with pool-side closes, "
+            "unreachable / not authorising pools, contract tasks, miner hang-up and shutdown; the regular fragment is compared op by op "
+            "with the model, the random stream (tasks and faults in any order) is judged by a trace monitor; a history that never "
+            "quiesces, crashes the process or leaves goroutines behind is a violation.")
+
+CHECKS["C06"] = dict(
+    text="Kernel-checked theorems over a model of the reconnect path (on top of the session model), for every session state: nothing is "
+         "dialled before the reconnect delay has passed; when it is due either exactly one replacement connection is dialled and the "
+         "session relays again, or the session is over, the miner's connection is closed and no pool connection is left - never more "
+         "than one dial; without a failure of the active connection nothing is ever dialled (no storm); a failure of a parked "
+         "connection does not stop the relay; a miner that hung up during the wait is noticed at the reconnect and the replacement "
+         "dialled for it is closed again. " + LIFE_TIE + " Partial: stalls and resets are represented by closes; faults at every "
+         "handshake step are covered by C15's harness, not here.",
+    technique="Lean 4 per-event theorems over a reconnect model + differential correspondence with the real Scheduler+Proxy under synctest virtual time (regular fragment) + trace monitor (random stream)",
+    design="5/C06", engine="allocator")
+
+CHECKS["C13"] = dict(
+    text="Kernel-checked theorems: a destination switch (to a new, cached or the current destination, successful or not) leaves at most "
+         "max(maxCached,1) destination connections, and no other event changes their number (eviction removes the entry with the "
+         "earliest idle deadline, which is proved to be an entry of the cache); however a session ends - miner hang-up, shutdown, "
+         "failed reconnect - every pool connection it holds is closed and none is left; once released no event dials or reopens "
+         "anything. " + LIFE_TIE + " The monitor checks at every quiescence point: at most one Proxy.Run and one Pipe.Run goroutine, open "
+         "pool connections within the configured maximum, and after the end nothing open, nothing running, the miner not listed, every "
+         "queued task told. Partial: the TCP handler's steps around the scheduler are replayed by the harness; the 10-minute default "
+         "idle time is not waited for.",
+    technique="Lean 4 invariant proofs (cache bound, release) over the session / lifecycle models + differential correspondence and trace monitor on the real Scheduler+Proxy under synctest virtual time with goroutine-leak detection",
+    design="5/C13", engine="allocator")
+
 NOT_YET = {}
 
 ALL = ["C%02d" % i for i in range(1, 21)]
